@@ -619,6 +619,10 @@ func (v *verifSession) parseCalls(lines []string) []verifkit.M {
 				target = n
 			}
 		}
+		/* a hook without the address among its arguments gets it on standard input */
+		if n, ok := v.w.name[c.Stdin]; ok && target == "unknown" {
+			target = n
+		}
 		calls = append(calls, verifkit.M{"target": target, "argv": c.Argv, "argv0": c.Argv0, "stdin": c.Stdin})
 	}
 	return calls
@@ -738,6 +742,13 @@ func TestVerifKeys(t *testing.T) {
 	sid := 0
 	for _, toks := range in.Sessions {
 		sid++
+		/* every third session with a hook that names no %url: the address travels on standard input, whatever other
+		   placeholders the hook has */
+		if sid%3 == 1 {
+			config.Parsed.Media.Hook = []string{os.Args[0], "--verif-hook", "--kind", "%supertype", "%subtype"}
+		} else {
+			config.Parsed.Media.Hook = []string{os.Args[0], "--verif-hook", "%url", "%mimetype"}
+		}
 		v := verifNewSession(w, out, sid, in.Frames && sid%in.Every == 0)
 		v.held = strings.HasPrefix(toks[0], "hstart_")
 		os.Unsetenv("VERIF_HOOK_GATE")
